@@ -202,12 +202,18 @@ where
         match self.paused_animation.as_ref() {
             Some((paused_state, paused_position)) if state == paused_state => {
                 self.state_duration = *paused_position;
+                // The remembered position is consumed by resuming.
+                self.paused_animation = None;
             }
             _ => {
                 let was_animating = self.timelines.get(&self.current_state).is_some();
                 let will_animate = self.timelines.get(state).is_some();
                 if was_animating && !will_animate {
                     self.paused_animation = Some((self.current_state.clone(), self.state_duration));
+                } else if will_animate {
+                    // Entering a different animated state abandons the interrupted animation; a
+                    // later return to it must blend afresh instead of jumping to a stale position.
+                    self.paused_animation = None;
                 }
                 self.blend_next_timeline(state);
                 self.state_duration = Duration::ZERO;
